@@ -377,6 +377,218 @@ fn box_round_trips<'b, T: Elem>(ctx: &mut Ctx, alloc: &mut dyn FnMut(&[u64]) -> 
     let _ = take_created();
 }
 
+/// `partition(pred)` of a boxed slice (oracle only: exact partition as multisets, count of the left part,
+/// contiguity; exactly-once drops also when the predicate panics)
+fn box_partition<'b, T: Elem>(ctx: &mut Ctx, alloc: &mut dyn FnMut(&[u64]) -> BumpBox<'b, [T]>, len: usize, panic_at: Option<usize>) {
+    let zst = T::ZST;
+    let ids: Vec<u64> = (0..len).map(|_| ctx.fresh()).collect();
+    let c = alloc(&ids);
+    let _ = take_created();
+    let _ = take_log();
+    let zc = zcounts();
+    if !zst {
+        let _ = writeln!(ctx.out, "new c box cap={len} ids={} addr={} esize={} align={}", csv(&ids), c.as_ptr() as usize, std::mem::size_of::<T>(), std::mem::align_of::<T>());
+    }
+    let mut oracle: Vec<Oc> = (0..len).map(|_| Oc::Ret(u64::from(ctx.rng.chance(1, 2)))).collect();
+    if let Some(k) = panic_at {
+        if k < len {
+            oracle[k] = Oc::Panic;
+            oracle.truncate(k + 1);
+        }
+    }
+    set_oracle(&oracle, &[]);
+    *ctx.op_hist.entry("partition".to_string()).or_insert(0) += 1;
+    ctx.oracle_checks += 1;
+    let r = catch_unwind(AssertUnwindSafe(move || c.partition(T::pred_ref)));
+    let used_n = used();
+    clear_oracle();
+    let optext = format!("op partition c o={} into=l,r", oracle_text(&oracle));
+    match r {
+        Ok((l, r)) => {
+            if !zst {
+                let _ = writeln!(ctx.out, "{optext} => {} {} exit=ret used={used_n}", part_text("l", &l), part_text("r", &r));
+            }
+            let trues = oracle.iter().filter(|o| matches!(o, Oc::Ret(v) if *v != 0)).count();
+            if oracle.contains(&Oc::Panic) {
+                ctx.oracle("C16", format!("box partition on len={len}: the predicate panicked but the call returned"));
+            }
+            if l.len() != trues || l.len() + r.len() != len || used_n != len {
+                ctx.oracle("C16", format!("box partition on len={len} with {trues} `true` answers: parts have {} + {} elements, {} predicate calls", l.len(), r.len(), used_n));
+            }
+            if !zst {
+                let mut got = VecDyn::ids(&l);
+                got.extend(VecDyn::ids(&r));
+                got.sort_unstable();
+                let mut want = ids.clone();
+                want.sort_unstable();
+                if got != want {
+                    ctx.oracle("C16", format!("box partition on ids={}: parts hold {} and {}", csv(&ids), csv(&VecDyn::ids(&l)), csv(&VecDyn::ids(&r))));
+                }
+                if l.as_ptr() as usize + l.len() * std::mem::size_of::<T>() != r.as_ptr() as usize {
+                    ctx.oracle("C16", format!("box partition on len={len}: the parts are not adjacent"));
+                }
+            }
+            let _ = take_log();
+            let (lids, rids) = (VecDyn::ids(&l), VecDyn::ids(&r));
+            drop(l);
+            if !zst {
+                let _ = writeln!(ctx.out, "drop l => drops={} exit=ret", csv(&lids));
+            }
+            drop(r);
+            if !zst {
+                let _ = writeln!(ctx.out, "drop r => drops={} exit=ret", csv(&rids));
+            }
+        }
+        Err(_) => {
+            if !zst {
+                let d = peek_log();
+                let _ = writeln!(ctx.out, "{optext} => drops={} exit=panic used={used_n}", csv(&d));
+            }
+            if !oracle.contains(&Oc::Panic) {
+                ctx.oracle("C16", format!("box partition on len={len} panicked although the predicate did not"));
+            }
+        }
+    }
+    // everything was dropped exactly once by now
+    if zst {
+        let (_, d, _) = zcounts();
+        if d - zc.1 != len as u64 {
+            ctx.oracle("C06", format!("zst box partition on len={len} (panic at {panic_at:?}): {} destructor calls for {len} values", d - zc.1));
+        }
+    } else {
+        let mut drops = take_log();
+        drops.sort_unstable();
+        let mut want = ids.clone();
+        want.sort_unstable();
+        if drops != want {
+            ctx.oracle("C06", format!("box partition on ids={} (panic at {panic_at:?}): dropped {}", csv(&ids), csv(&drops)));
+        }
+    }
+    clear_stash();
+    let _ = take_log();
+    let _ = take_created();
+}
+
+/// `into_flattened` of a vector of `[T; 2]` (oracle only): element count and order are kept, each value dropped once
+fn check_flattened<T: Elem>(ctx: &mut Ctx, what: &str, ids: &[u64], got_ids: Vec<u64>, got_len: usize, got_cap: Option<(usize, usize)>) {
+    ctx.oracle_checks += 1;
+    *ctx.op_hist.entry("into_flattened".to_string()).or_insert(0) += 1;
+    if got_len != ids.len() {
+        ctx.oracle("C16", format!("{what} into_flattened of {} arrays of 2: length {got_len}", ids.len() / 2));
+    }
+    if !T::ZST && got_ids != ids {
+        ctx.oracle("C16", format!("{what} into_flattened on ids={}: got {}", csv(ids), csv(&got_ids)));
+    }
+    if let Some((before, after)) = got_cap {
+        if !T::ZST && after != before * 2 {
+            ctx.oracle("C16", format!("{what} into_flattened: capacity {before} arrays became {after} elements"));
+        }
+        if T::ZST && after != usize::MAX {
+            ctx.oracle("C08", format!("{what} into_flattened of a zero-sized type: capacity {after}"));
+        }
+    }
+}
+
+fn pairs<T: Elem>(ids: &[u64]) -> Vec<[T; 2]> {
+    ids.chunks(2).map(|c| [T::make(c[0]), T::make(c[1])]).collect()
+}
+
+macro_rules! flatten_with_settings {
+    ($fname:ident, $S:ty) => {
+        fn $fname<T: Elem>(ctx: &mut Ctx) {
+            for n in 0..=5usize {
+                for spare in [0usize, 2] {
+                    ctx.next_id = 1;
+                    let ids: Vec<u64> = (0..2 * n).map(|_| ctx.fresh()).collect();
+                    zreset();
+                    let _ = take_log();
+                    let mut bump: Bump<Global, $S> = Bump::new();
+                    {
+                        let b: BumpBox<[[T; 2]]> = bump.alloc_iter_exact(pairs::<T>(&ids));
+                        let f = b.into_flattened();
+                        check_flattened::<T>(ctx, "box", &ids, VecDyn::ids(&f), f.len(), None);
+                    }
+                    {
+                        let mut v: FixedBumpVec<[T; 2]> = FixedBumpVec::with_capacity_in(n + spare, &bump);
+                        for p in pairs::<T>(&ids) {
+                            v.push(p);
+                        }
+                        let cap = v.capacity();
+                        let f = v.into_flattened();
+                        check_flattened::<T>(ctx, "fixed", &ids, VecDyn::ids(&f), VecDyn::len(&f), Some((cap, f.capacity())));
+                    }
+                    {
+                        let mut v: BumpVec<[T; 2], &Bump<Global, $S>> = BumpVec::with_capacity_in(n + spare, &bump);
+                        for p in pairs::<T>(&ids) {
+                            v.push(p);
+                        }
+                        let cap = v.capacity();
+                        let mut f = v.into_flattened();
+                        check_flattened::<T>(ctx, "bump", &ids, VecDyn::ids(&f), VecDyn::len(&f), Some((cap, f.capacity())));
+                        // the flattened vector keeps working: grow it, then drop
+                        f.push(T::make(1000));
+                        f.push(T::make(1001));
+                    }
+                    {
+                        let mut v: MutBumpVec<[T; 2], &mut Bump<Global, $S>> = MutBumpVec::with_capacity_in(n + spare, &mut bump);
+                        for p in pairs::<T>(&ids) {
+                            v.push(p);
+                        }
+                        let cap = v.capacity();
+                        let f = v.into_flattened();
+                        check_flattened::<T>(ctx, "mut", &ids, VecDyn::ids(&f), VecDyn::len(&f), Some((cap, f.capacity())));
+                    }
+                    {
+                        let mut v: MutBumpVecRev<[T; 2], &mut Bump<Global, $S>> = MutBumpVecRev::with_capacity_in(n + spare, &mut bump);
+                        for p in pairs::<T>(&ids).into_iter().rev() {
+                            v.push(p);
+                        }
+                        let cap = v.capacity();
+                        let f = v.into_flattened();
+                        check_flattened::<T>(ctx, "rev", &ids, VecDyn::ids(&f), VecDyn::len(&f), Some((cap, f.capacity())));
+                    }
+                    // five owners held every id once (+ the two extra pushes): each destructor ran exactly once
+                    ctx.oracle_checks += 1;
+                    if T::ZST {
+                        let (c, d, _) = zcounts();
+                        if c != d {
+                            ctx.oracle("C06", format!("zst into_flattened round: {c} values created, {d} destructor calls"));
+                        }
+                    } else {
+                        let mut drops = take_log();
+                        drops.sort_unstable();
+                        let mut want: Vec<u64> = Vec::new();
+                        for _ in 0..5 {
+                            want.extend_from_slice(&ids);
+                        }
+                        want.push(1000);
+                        want.push(1001);
+                        want.sort_unstable();
+                        if drops != want {
+                            ctx.oracle("C06", format!("into_flattened round on ids={}: destructor calls {}", csv(&ids), csv(&drops)));
+                        }
+                    }
+                    let _ = take_created();
+                }
+            }
+            // partition
+            for len in 0..=8usize {
+                for pk in [None, Some(0usize), Some(len / 2), Some(len.saturating_sub(1))] {
+                    ctx.next_id = 1;
+                    zreset();
+                    let bump: Bump<Global, $S> = Bump::new();
+                    let mut alloc = |ids: &[u64]| -> BumpBox<[T]> { bump.alloc_iter_exact(ids.iter().map(|i| T::make(*i))) };
+                    box_partition::<T>(ctx, &mut alloc, len, pk);
+                }
+            }
+        }
+    };
+}
+flatten_with_settings!(flatten_s1u, S1U);
+flatten_with_settings!(flatten_s1d, S1D);
+flatten_with_settings!(flatten_s8u, S8U);
+flatten_with_settings!(flatten_s16d, S16D);
+
 macro_rules! split_with_settings {
     ($fname:ident, $S:ty) => {
         fn $fname<T: Elem>(ctx: &mut Ctx, zst: bool, settings: u8, exhaustive: bool) {
@@ -494,4 +706,12 @@ pub fn run_split_profile(ctx: &mut Ctx, budget: usize) {
             ctx.out.clear();
         }
     }
+    // into_flattened / partition (oracle only)
+    flatten_s1u::<E>(ctx);
+    flatten_s1d::<E>(ctx);
+    flatten_s8u::<Z>(ctx);
+    flatten_s16d::<E>(ctx);
+    flatten_s16d::<Z>(ctx);
+    print!("{}", ctx.out);
+    ctx.out.clear();
 }
